@@ -399,6 +399,20 @@ static size_t key_put(uint8_t *k, uint64_t v, int how) {
     if (how == 0) {
         return varintTaggedPut64(k, v);
     }
+    /* how >= 10: counter-style use, the value is reached by a small step:
+     * how = 10 + 2*j (+1): start = v + STEP[j] stepped down with AddGrow
+     * (even) / start = v - STEP[j] stepped up with AddGrow (odd) */
+    if (how >= 10) {
+        static const uint64_t STEP[] = {1, 2, 5, 16, 255, 256};
+        uint64_t d = STEP[((how - 10) / 2) % 6];
+        int up = (how - 10) & 1;
+        uint64_t st = up ? v - d : v + d;
+        if ((up && v < d) || (!up && st < v) || (int64_t)st < 0 || (int64_t)v < 0) {
+            return varintTaggedPut64(k, v);
+        }
+        varintTaggedPut64(k, st);
+        return (size_t)varintTaggedAddGrow(k, up ? (int64_t)d : -(int64_t)d);
+    }
     /* start from a value of at least the same length so that no-grow applies */
     uint64_t start = how == 2 ? (v < (1ULL << 62) ? v * 2 + 70000 : v) : v / 2;
     if ((int64_t)start < 0 || (int64_t)v < 0) {
@@ -450,6 +464,10 @@ static void mode_cmp(size_t shard, size_t nshards, size_t nrandom) {
         cmp_emit_how(&vals[i], &vals[i], 1, 1);
         cmp_emit_how(&vals[i], &vals[i + 1], 1, 2);
         cmp_emit_how(&vals[i + 1], &vals[i], 1, 2);
+        /* ... and by counter-style small steps in both directions */
+        for (int h = 10; h < 22; h++) {
+            cmp_emit_how(&vals[i], &vals[i], 1, h);
+        }
     }
     /* pairs differing in exactly one payload byte, random pairs, tuples */
     for (size_t i = 0; i < nrandom; i++) {
